@@ -394,6 +394,3 @@ func uniq(s []string) []string {
 }
 
 // tryReplay attempts to turn a solver model into a failing test on the real code.
-func tryReplay(prog *Program, r *FuncResult, o *Obligation, prop string) (string, bool) {
-	return "", false
-}
